@@ -81,44 +81,53 @@ Definition impl_ne_scalar_gen (veqb : V -> V -> bool) (isz : V -> bool) (A : spa
 End Gen.
 
 (* ------------------------------------------------------------------------------------------ *)
-(* __truediv__ (sparse operand) exactly as pyttb computes it today (open finding A-07), over the generated helpers.
+(* __truediv__ (sparse operand) exactly as pyttb computes it (repaired tree, commit e2beb21: finding A-07 fixed; the
+   fill values NaN for x/0 and a stored 0 for 0/x are finding C03-N7), over the generated helpers.
    a[idx] with an index outside the array raises in numpy: take_chk *)
 Definition take_chk {A} (d : A) (a : list A) (idx : vec) : res (list A) :=
   if forallb (fun k => (- zlen a <=? k)%Z && (k <? zlen a)%Z) idx then Ok (np_take d a idx) else Err.
 Definition nonempty {A} (l : list A) : bool := match l with [] => false | _ => true end.
 
-Section DivAsIs.
+Section DivGen.
 Context {V X : Type} (v0 : V).
 Variables (dv : V -> V -> X) (xnan xzero : X).
 
+(* if moresubs.size > 0: newsubs = vstack(newsubs, src[moresubs, :]); newvals = vstack(newvals, fill) *)
 Definition more_rows (acc : list idx * list X) (src : list idx) (moresubs : vec) (fill : X) : res (list idx * list X) :=
   if nonempty moresubs then
     bind (take_chk [] src moresubs) (fun rows => Ok (fst acc ++ rows, snd acc ++ map (fun _ => fill) moresubs))
   else Ok acc.
 
-(* `alls` = self.allsubs() = other.allsubs(): pyttb enumerates with the FIRST mode slowest (allsubsC); the positional
-   mis-indexing below depends on that order, so the enumeration is a parameter *)
-Definition impl_div_asis (alls : list idx) (A B : sparse V) : res (sparse X) :=
+(* `alls` = self.allsubs() = other.allsubs() (pyttb enumerates with the FIRST mode slowest: allsubsC); the enumeration is a
+   parameter: the theorems hold for any duplicate-free enumeration of the shape *)
+Definition impl_div_sparse_gen (alls : list idx) (A B : sparse V) : res (sparse X) :=
   let zA := zrows (ssubs A) in let zB := zrows (ssubs B) in
   bind (if nonempty (ssubs A) then gen_diff alls (ssubs A) else Ok alls) (fun SelfZeroSubs =>
   bind (if nonempty (ssubs B) then gen_diff alls (ssubs B) else Ok alls) (fun OtherZeroSubs =>
-  (* both nonzero: idxSelf and idxOther paired BY POSITION *)
+  (* both nonzero: idxSelf = tt_intersect_rows(self.subs, other.subs); newsubs = self.subs[idxSelf];
+     _, idxOther = tt_ismember_rows(newsubs, other.subs); newvals = self.vals[idxSelf] / other.vals[idxOther] *)
   bind (if nonempty (ssubs A) && nonempty (ssubs B) then
           bind (tt_intersect_rows zA zB) (fun idxSelf =>
-          bind (tt_intersect_rows zB zA) (fun idxOther =>
-          Ok (np_take [] (ssubs A) idxSelf, zipw dv (np_take v0 (svals A) idxSelf) (np_take v0 (svals B) idxOther))))
+          let newsubs := np_take [] (ssubs A) idxSelf in
+          bind (tt_ismember_rows (zrows newsubs) zB) (fun mr =>
+          Ok (newsubs, zipw dv (np_take v0 (svals A) idxSelf) (np_take v0 (svals B) (snd mr)))))
         else Ok ([], [])) (fun acc0 =>
-  (* self nonzero, other zero: positions in self.subs used as positions in SelfZeroSubs; NaN *)
+  (* self nonzero, other zero: self.subs[tt_intersect_rows(self.subs, OtherZeroSubs)], filled with NaN *)
   bind (if nonempty (ssubs A) then
-          bind (tt_intersect_rows zA (zrows OtherZeroSubs)) (fun moresubs => more_rows acc0 SelfZeroSubs moresubs xnan)
+          bind (tt_intersect_rows zA (zrows OtherZeroSubs)) (fun moresubs => more_rows acc0 (ssubs A) moresubs xnan)
         else Ok acc0) (fun acc1 =>
-  (* other nonzero, self zero: positions in other.subs used as positions in OtherZeroSubs; 0 *)
+  (* other nonzero, self zero: other.subs[tt_intersect_rows(other.subs, SelfZeroSubs)], filled with 0 *)
   bind (if nonempty (ssubs B) then
-          bind (tt_intersect_rows zB (zrows SelfZeroSubs)) (fun moresubs => more_rows acc1 OtherZeroSubs moresubs xzero)
+          bind (tt_intersect_rows zB (zrows SelfZeroSubs)) (fun moresubs => more_rows acc1 (ssubs B) moresubs xzero)
         else Ok acc1) (fun acc2 =>
-  (* both zero: NaN *)
+  (* both zero: SelfZeroSubs[tt_intersect_rows(SelfZeroSubs, OtherZeroSubs)], filled with NaN *)
   bind (tt_intersect_rows (zrows SelfZeroSubs) (zrows OtherZeroSubs)) (fun moresubs =>
   bind (more_rows acc2 SelfZeroSubs moresubs xnan) (fun acc3 =>
   Ok (mkSp (sshape A) (fst acc3) (snd acc3))))))))).
-End DivAsIs.
+
+(* what the code stores at subscript i, by membership in the two stored supports *)
+Definition div_fill (A B : sparse V) (i : idx) : X :=
+  if mem i (ssubs A) then (if mem i (ssubs B) then dv (den_sp v0 A i) (den_sp v0 B i) else xnan)
+  else (if mem i (ssubs B) then xzero else xnan).
+End DivGen.
 Definition allsubsC (s : shape) : list idx := map (@rev nat) (allsubs (rev s)).
